@@ -96,9 +96,9 @@ def enumerate_states(tier, seed):
     meta["bound_completed"] += " + dense Nesterov-primitives family (%d scenes)" % len(dense)
     if tier == "thorough":
         from . import c01
-        extra = [d for d in c01.enumerate_dev3(seed, full=True) if d["pl"] in PLS]
+        extra = [d for d in c01.enumerate_dev3(seed, full=True, alph=c01.MED) if d["pl"] in PLS or d["pl"] in (4, 6, 13)]
         states += extra
-        meta["bound_completed"] += " + deviation bound 3 on reduced alphabets (%d)" % len(extra)
+        meta["bound_completed"] += " + complete deviation bound 3 over medium alphabets (%d)" % len(extra)
     else:
         from . import c01
         extra = [d for d in c01.enumerate_dev3(seed, full=False) if d["pl"] in PLS]
